@@ -285,7 +285,8 @@ def write_evidence(mod, tier, seed, agg, wall, nviol_new, known_lines, assumptio
 	with open(tmp, 'w') as f:
 		f.write(jdump(ev, indent=1) + '\n')
 	os.replace(tmp, path)
-	validate_evidence(path)
+	if nviol_new == 0:
+		validate_evidence(path)     # a run that found violations reports them even if its coverage counters are degenerate
 	return path
 
 
